@@ -428,6 +428,15 @@ func readOnlyFileClose(com *ssa.CallCommon) bool {
 				}
 				return all && n > 0
 			}
+			if fv, isf := x.X.(*ssa.FreeVar); isf && x.Op == token.MUL {
+				sts := cellStores(rootCell(fv))
+				for _, st := range sts {
+					if !ok(st.Val, d-1) {
+						return false
+					}
+				}
+				return len(sts) > 0
+			}
 		case *ssa.Phi:
 			for _, e := range x.Edges {
 				if !ok(e, d-1) {
@@ -435,6 +444,9 @@ func readOnlyFileClose(com *ssa.CallCommon) bool {
 				}
 			}
 			return true
+		}
+		if r := resolve(v); r != v {
+			return ok(r, d-1) // a captured variable bound to the opened file
 		}
 		return false
 	}
@@ -492,8 +504,8 @@ func err1Obligations(w *World) []Ob {
 					l.add(ob)
 					continue
 				}
-				if s.kind == "defer" && readOnlyFileClose(ci.Common()) {
-					ob.Status, ob.Detail, ob.Nontrivial = OK, "deferred Close of a file opened read-only (os.Open / os.Stdin)", false
+				if readOnlyFileClose(ci.Common()) {
+					ob.Status, ob.Detail, ob.Nontrivial = OK, "Close of a file opened read-only (os.Open / os.Stdin): nothing written can be lost", false
 					l.add(ob)
 					continue
 				}
